@@ -152,7 +152,7 @@ def flows(tier, seed):
             return {f: empty_is_null(getattr(inst, f)) for f in fields}
 
         def stored():
-            row = table[0].rows.get((1, 1), {})
+            row = table[0].rows.get((1, inst.ck), {})
             stat = table[0].statics.get(1, {})
             return {f: empty_is_null((stat if f == 'shared' else row).get(f)) for f in fields}
         for trial in range(budget):
@@ -164,11 +164,15 @@ def flows(tier, seed):
                 query.DMLQuery(Row, inst).save()
                 inst._set_persisted()
                 for _ in range(rng.randrange(1, steps + 1)):
-                    kind = rng.choice(['save', 'update', 'delete-fields'])
+                    kind = rng.choice(['save', 'update', 'delete-fields', 'save-under-a-new-clustering-key'])
                     changes = {f: rng.choice(domains[f]) for f in rng.sample(fields, rng.randrange(1, 4))}
                     history.append('%s(%r)' % (kind, changes))
                     for f, v in changes.items():
                         setattr(inst, f, v)
+                    if kind == 'save-under-a-new-clustering-key':
+                        # a loaded row saved again after its clustering key was reassigned is a NEW row: every column has to be written, not only the changed ones
+                        inst.ck = inst.ck + 1
+                        kind = 'save'
                     if kind == 'save':
                         query.DMLQuery(Row, inst).save()
                     else:
